@@ -22,6 +22,7 @@ CASES = [  # (defect id, property, commit, demo, rules expected)
     ("D18", "C08", "112bf6d", "d18_date_pattern_double_quote.py", ["R08.2"]),
     ("D09", "C03", "a4ff4da", "d09_towards_zero_division.py", ["R03.6"]),
     ("D19", "C08", "4fc7de0", "d19_iso_year_minus_9999.py", ["R08.4"]),
+    ("D20", "C08", "0b77679", "d20_hour_24_on_last_day.py", ["R08.9"]),
 ]
 demos = os.path.join(HERE, "demos")
 for did, prop, commit, demo, rules in CASES:
